@@ -154,6 +154,6 @@ def twice(d, o):
 def main(ctx):
     if ctx.replay:
         print(open(ctx.replay).read()[:4000]); return
-    core.proof_leg(ctx, ["Mappy.Props.C04", "Mappy.Props.C04Doc"])
+    core.proof_leg(ctx, ["Mappy.Props.C04", "Mappy.Props.C04Doc", "Mappy.Props.C04Rel"])
     explore(ctx)
     core.finish(ctx, LEVEL_NOTE, RULE, search=lambda c: explore(c, scale=2.0))
